@@ -1,2 +1,3 @@
 pub mod instr_gen;
 pub mod bmt_ref;
+pub mod bmt_shared;
